@@ -11,9 +11,10 @@ Definition takeover (st : rstate) (client : str) : R rstate :=
   | None => Ok st
   end.
 
-(** [handle_new_connection] registers the will of an admitted Connect that carries one, and
-    otherwise leaves [r_wills] alone — in particular an admitted Connect WITHOUT a will leaves
-    an existing entry of the same client id in place *)
+(** [handle_new_connection]: an admitted Connect that carries a will registers it under its client
+    id; an admitted Connect WITHOUT a will removes an entry an earlier connection of the same
+    client id may have left (current code, after the fix of the stale-will finding); a Connect
+    that is not admitted leaves [r_wills] alone *)
 Lemma hnc_wills st conn link st' :
   handle_new_connection st conn link = Ok st' ->
   let client := c_client conn in
@@ -24,7 +25,7 @@ Lemma hnc_wills st conn link st' :
       ((cf_max_connections (r_cfg st1) <=? slab_len (r_conns st1)) = false /\
        r_wills st' = match c_will conn with
                      | Some w => al_set str_eqb client w (r_wills st)
-                     | None => r_wills st
+                     | None => al_remove str_eqb client (r_wills st)
                      end))).
 Proof.
   intros H client. unfold handle_new_connection in H. fold client in H.
@@ -255,15 +256,16 @@ Proof.
   destruct (str_eqb k k1); [discriminate | intros H; now rewrite IH].
 Qed.
 
-(** [c16_router]: the only ops that change [r_wills] are a Connect carrying a will (sets the
-    client's entry), an [OpData] whose batch reaches a DISCONNECT packet (removes the sender's
-    entry) and [OpWill] (removes the entry) *)
+(** [c16_router]: the only ops that change [r_wills] are an admitted Connect (sets the client's
+    entry if it carries a will, removes it otherwise), an [OpData] whose batch reaches a
+    DISCONNECT packet (removes the sender's entry) and [OpWill] (removes the entry) *)
 Lemma step_wills st o st' out :
   step st o = Ok (st', out) ->
   match o with
   | OpConnect c =>
       r_wills st' = r_wills st \/
-      exists w, cr_will c = Some w /\ r_wills st' = al_set str_eqb (cr_client c) w (r_wills st)
+      (exists w, cr_will c = Some w /\ r_wills st' = al_set str_eqb (cr_client c) w (r_wills st)) \/
+      (cr_will c = None /\ r_wills st' = al_remove str_eqb (cr_client c) (r_wills st))
   | OpData id =>
       r_wills st' = match data_removes_will st id with
                     | Some c => al_remove str_eqb c (r_wills st)
@@ -278,7 +280,7 @@ Proof.
     okinv. match goal with E : handle_new_connection _ _ _ = Ok _ |- _ => apply hnc_wills in E; cbn zeta in E; cbn [c_client c_will] in E end.
     rsimpl_all.
     destruct E as [[_ ->] | (_ & st1 & _ & Hw1 & [[_ ->] | [_ Hw]])]; rsimpl_all; auto.
-    destruct (cr_will c) as [w|]; [right; eauto | left; exact Hw].
+    destruct (cr_will c) as [w|]; [right; left; eauto | right; right; auto].
   - okinv; reflexivity.
   - okinv. now apply handle_device_payload_wills.
   - okinv. frames. unfold Kp in *. tauto.
@@ -309,9 +311,10 @@ Proof.
     match goal with E : step _ _ = Ok _ |- _ => apply step_wills in E; rename E into Hs end.
     destruct o; rsimpl_all.
     all: try (left; congruence).
-    + destruct Hs as [Hs | (w0 & Hcw & Hs)]; [left; congruence|].
-      rewrite Hs in Hin1. apply (al_set_in str_eqb str_eqb_spec) in Hin1 as [Hin1 | [-> ->]]; [now left|].
-      right. exists orc, c0. split; [now left | auto].
+    + destruct Hs as [Hs | [(w0 & Hcw & Hs) | (Hcw & Hs)]]; [left; congruence | |].
+      * rewrite Hs in Hin1. apply (al_set_in str_eqb str_eqb_spec) in Hin1 as [Hin1 | [-> ->]]; [now left|].
+        right. exists orc, c0. split; [now left | auto].
+      * rewrite Hs in Hin1. left. eapply al_remove_incl; eauto.
     + destruct (data_removes_will _ id) as [c1|]; [|left; congruence].
       rewrite Hs in Hin1. left. eapply al_remove_incl; eauto.
     + rewrite Hs in Hin1. left. eapply al_remove_incl; eauto.
@@ -340,6 +343,94 @@ Proof.
   apply al_get_in in Eg; [|apply str_eqb_spec].
   destruct (wills_provenance _ _ _ _ _ _ H Eg) as (orc & cr & Hi & Hc & Hw).
   rewrite (Hno _ _ Hi Hc) in Hw. discriminate.
+Qed.
+
+(* ------------------------------------------------------------------ the current connection's will *)
+(** [r_wills] has distinct keys in every reachable state (so removing an entry really removes it) *)
+Lemma step_wills_nodup st o st' out :
+  step st o = Ok (st', out) -> NoDup (map fst (r_wills st)) -> NoDup (map fst (r_wills st')).
+Proof.
+  intros H Hnd. apply step_wills in H. destruct o.
+  all: try (rewrite H; exact Hnd).
+  - destruct H as [-> | [(w & _ & ->) | (_ & ->)]]; [exact Hnd | |].
+    + now apply al_set_nodup; [apply str_eqb_spec|].
+    + now apply al_remove_nodup.
+  - rewrite H. destruct (data_removes_will st id); [now apply al_remove_nodup | exact Hnd].
+  - rewrite H. now apply al_remove_nodup.
+Qed.
+
+Lemma reachable_wills_nodup cfg st : reachable cfg st -> NoDup (map fst (r_wills st)).
+Proof.
+  apply (reachable_inv (fun s => NoDup (map fst (r_wills s)))).
+  - intros st0 H0. rewrite (init_wills _ _ H0). constructor.
+  - intros s orc o s' out Hs H. unfold step_with in H. okinv.
+    match goal with E : step _ _ = Ok _ |- _ => apply step_wills_nodup in E; [exact E | exact Hs] end.
+Qed.
+
+(** after an ADMITTED Connect the entry of its client id is exactly the will this Connect carried *)
+Lemma connect_registers st conn link st' st1 :
+  handle_new_connection st conn link = Ok st' ->
+  NoDup (map fst (r_wills st)) ->
+  validate_clientid (c_client conn) = true -> takeover st (c_client conn) = Ok st1 ->
+  (cf_max_connections (r_cfg st1) <=? slab_len (r_conns st1)) = false ->
+  al_get str_eqb (c_client conn) (r_wills st') = c_will conn /\
+  (forall c, c <> c_client conn -> al_get str_eqb c (r_wills st') = al_get str_eqb c (r_wills st)).
+Proof.
+  intros H Hnd Hv Ht Hcap. apply hnc_wills in H. cbn zeta in H.
+  destruct H as [[Hv' _] | (_ & st1' & Ht' & _ & [[Hc _] | [_ Hw]])]; try congruence.
+  rewrite Hw. destruct (c_will conn) as [w|].
+  - split; [now apply al_get_set_same; apply str_eqb_spec|].
+    intros c Hn. now apply al_get_set_other; [apply str_eqb_spec|].
+  - split; [now apply al_get_remove_same; [apply str_eqb_spec|]|].
+    intros c Hn. now apply al_get_remove_other; [apply str_eqb_spec|].
+Qed.
+
+Lemma al_get_remove_none {V} k k' (m : list (str * V)) :
+  al_get str_eqb k m = None -> al_get str_eqb k (al_remove str_eqb k' m) = None.
+Proof.
+  intros H. apply (al_get_none str_eqb str_eqb_spec) in H. apply (al_get_none str_eqb str_eqb_spec).
+  intros Hin. apply H. eapply al_remove_keys_incl; eauto.
+Qed.
+
+(** an absent entry stays absent as long as no Connect of that client id carries a will *)
+Lemma will_absent_stable ops : forall st st' outs c,
+  run st ops = Ok (st', outs) -> al_get str_eqb c (r_wills st) = None ->
+  (forall orc cr, In (orc, OpConnect cr) ops -> cr_client cr = c -> cr_will cr = None) ->
+  al_get str_eqb c (r_wills st') = None.
+Proof.
+  induction ops as [| [orc o] r IH]; intros st st' outs c H Hn Hno; cbn [run] in H.
+  - okinv. exact Hn.
+  - destruct (step_with st orc o) as [[st1 out] | |] eqn:E; cbn [bind] in H; try discriminate.
+    destruct (run st1 r) as [[st2 outs2] | |] eqn:Er; cbn [bind] in H; try discriminate. okinv.
+    eapply IH; [exact Er | | intros orc' cr Hi; apply (Hno orc' cr); now right].
+    unfold step_with in E. okinv.
+    match goal with E : step _ _ = Ok _ |- _ => apply step_wills in E; rename E into Hs end.
+    destruct o; rsimpl_all; try (rewrite Hs; exact Hn).
+    + destruct Hs as [-> | [(w & Hcw & ->) | (_ & ->)]]; [exact Hn | | now apply al_get_remove_none].
+      destruct (str_eqb_spec c (cr_client c0)) as [-> | Hne].
+      * rewrite (Hno orc c0 (or_introl eq_refl) eq_refl) in Hcw. discriminate.
+      * rewrite al_get_set_other by (auto using str_eqb_spec). exact Hn.
+    + rewrite Hs. destruct (data_removes_will _ id); [now apply al_get_remove_none | exact Hn].
+    + rewrite Hs. now apply al_get_remove_none.
+Qed.
+
+(** [c16]: a client whose CURRENT connection registered no will never causes an append through
+    [OpWill] — after an admitted will-less Connect of client [c], and any further ops among
+    which no Connect of [c] carries a will, [OpWill c] is the identity *)
+Lemma current_connection_without_will st conn link st' st1 ops st'' outs :
+  handle_new_connection st conn link = Ok st' ->
+  NoDup (map fst (r_wills st)) ->
+  validate_clientid (c_client conn) = true -> takeover st (c_client conn) = Ok st1 ->
+  (cf_max_connections (r_cfg st1) <=? slab_len (r_conns st1)) = false ->
+  c_will conn = None ->
+  run st' ops = Ok (st'', outs) ->
+  (forall orc cr, In (orc, OpConnect cr) ops -> cr_client cr = c_client conn -> cr_will cr = None) ->
+  step st'' (OpWill (c_client conn)) = Ok (st'', OutUnit).
+Proof.
+  intros H Hnd Hv Ht Hcap Hw Hrun Hno.
+  destruct (connect_registers _ _ _ _ _ H Hnd Hv Ht Hcap) as [Hreg _]. rewrite Hw in Hreg.
+  cbn [step]. rewrite handle_last_will_none; [reflexivity|].
+  eapply will_absent_stable; eauto.
 Qed.
 
 (* ------------------------------------------------------------------ Example *)
@@ -383,5 +474,33 @@ Example will_hypotheses :
       end
   | _ => False
   end.
+Proof. vm_compute. repeat split; reflexivity. Qed.
+
+(** the stale-will finding, after its fix: a will-less Connect that takes over a connection which
+    had registered a will removes the entry; the PublishWill that follows publishes nothing.
+    (Before the fix — [handle_new_connection] left the entry in place — the same ops delivered
+    the first connection's will; reproduced on the real router with: CONNECT d with will;
+    CONNECT d without will; WILL d.) *)
+Definition ops_takeover : list op_in := map no
+  [ OpConnect (creq [115] true None);
+    OpPush 0 (PSubscribe 1 [([119;47;35], 1)] None);
+    OpData 0; OpConsume; OpConsume;
+    OpConnect (creq [100] false (Some the_will));
+    OpConnect (creq [100] false None);          (* takes over; carries no will *)
+    OpWill [100];
+    OpConsume; OpConsume; OpConsume;
+    OpDrain 0 ].
+
+Example stale_will_removed_by_takeover :
+  (match run_from cfg0 (firstn 6 ops_takeover) with
+   | Ok (st, _) => al_get str_eqb [100] (r_wills st) = Some the_will
+   | _ => False
+   end) /\
+  (match run_from cfg0 (firstn 7 ops_takeover) with
+   | Ok (st, _) => al_get str_eqb [100] (r_wills st) = None
+   | _ => False
+   end) /\
+  option_map (fun o => last o OutUnit) (outs_of (run_from cfg0 ops_takeover)) =
+  Some (OutDrain [NAck (AConnAck 0 false); NAck (ASubAck 1 [1])]).
 Proof. vm_compute. repeat split; reflexivity. Qed.
 End C16Example.
